@@ -281,6 +281,8 @@ class Engine:
                 avail.append((k, w))
             elif k == "half_write":
                 avail.append((k, w))
+            elif k == "clip" and (objs or grps):
+                avail.append((k, w))
             elif k in ("move_data", "add_data_fail") and objs:
                 avail.append((k, w))
             elif k == "pg_add_second" and any(any(m for m in o.pgs.values()) for o in objs):
@@ -796,6 +798,81 @@ class Engine:
         self.copied_out += 1
         op["uid"] = None if new is None else str(new.uid)
 
+    def _learn_live(self, e, parent_uid):
+        """Take an entity the library built (a clip, a conversion) into the model as found: existence, kind and place are
+        asserted from now on, its content only through the live-vs-file clauses."""
+        n = Node(str(e.uid), kind_of(e), type(e).__name__, parent_uid, e.name)
+        n.dkind = "auto"
+        self.model.nodes[n.uid] = n
+        if n.kind == "object":
+            for pg in getattr(e, "property_groups", None) or []:
+                n.pgs[pg.name] = [str(u) for u in (pg.properties or [])]
+        for c in getattr(e, "children", None) or []:
+            if not snap._is_pg(c):
+                self._learn_live(c, n.uid)
+
+    def op_clip(self, op):
+        """copy_from_extent of an object or of a group (nested groups, some of them outside the box), into this workspace or
+        into the second one.  The source side must stay as it is; what the clip created is learned from the live view."""
+        cands = [n for n in self.model.of_kind("object", "group") if len(self.model.subtree(n.uid)) <= 25]
+        if not cands:
+            raise ExpectedRefusal("nothing to clip")
+        n = self.rng.choice(cands)
+        sub = [self.model.nodes[u] for u in self.model.subtree(n.uid)]
+        if any(x.cls == "GeoImage" for x in sub):
+            raise ExpectedRefusal("clipping an image is a conversion through temporary grids, not a selection")
+        if any(not x.flags.get("allow_delete", True) for x in sub):
+            raise ExpectedRefusal("protected member: a group clip discards empty copies by removing them")
+        e = self.ent(n.uid)
+        try:
+            ext = e.extent
+        except Exception:  # noqa: BLE001
+            ext = None
+        if ext is None:
+            raise ExpectedRefusal("no extent")
+        lo, hi = np.asarray(ext[0], dtype=float), np.asarray(ext[1], dtype=float)
+        mid = (lo + hi) / 2.0
+        style = self.rng.choice(["low-half", "high-half", "all", "corner", "slab"])
+        if style == "low-half":
+            box = [lo - 1.0, np.r_[mid[0], hi[1:] + 1.0]]
+        elif style == "high-half":
+            box = [np.r_[lo[0] - 1.0, mid[1], lo[2] - 1.0], hi + 1.0]
+        elif style == "all":
+            box = [lo - 1.0, hi + 1.0]
+        elif style == "corner":
+            box = [lo - 1.0, mid + 1e-3]
+        else:
+            box = [np.r_[lo[0] - 1.0, mid[1] - 0.4, lo[2] - 1.0], np.r_[hi[0] + 1.0, mid[1] + 0.4, hi[2] + 1.0]]
+        dims = self.rng.choice([2, 3])
+        box = np.array([b[:dims] for b in box])
+        inverse = self.rng.random() < 0.25
+        out = self.ws2 is not None and self.rng.random() < 0.45
+        if out:
+            t, target = None, self.ws2.root
+        else:
+            t = self.rng.choice([self.model.root] + [g.uid for g in self.model.of_kind("group") if not self.model.is_descendant(g.uid, n.uid)])
+            target = self.ent(t)
+        name = self.new_name("clip")
+        op.update(cls=n.cls, target=n.uid, to=t, style=style, dims=dims, inverse=inverse, out=out, name=name)
+        fp = self.last_footprint
+        if out:
+            fp["any_type"] = False
+        else:
+            fp["create"], fp["any_type"] = True, True
+            fp["links"].add(path_of(self.model.nodes[t]) if t != self.model.root else "Groups/" + br(t))
+        new = e.copy_from_extent(box, parent=target, inverse=inverse, name=name)
+        self.rec.see("clips" + (":other-workspace" if out else "") + (":" + n.kind))
+        if new is None:
+            self.rec.see("clips-returning-nothing")
+            op["uid"] = None
+            return
+        op["uid"] = str(new.uid)
+        if out:
+            self.copied_out = getattr(self, "copied_out", 0) + 1
+        else:
+            self.remember(new)
+            self._learn_live(new, t)
+
     def op_remove(self, op):
         n = self.pick_any()
         if n.dkind == "auto":
@@ -1129,6 +1206,7 @@ DEFAULT_WEIGHTS = {
     "foreign_pg": 0.3,
     "mk_deferred": 0.0,
     "half_write": 0.0,
+    "clip": 0.0,
     "copy_out": 0.0,
 }
 
